@@ -33,11 +33,16 @@
    * self-assignment (copy and move form) and self-swap of an element change no byte, whatever
      the field table and run table (C11_self_assignment_changes_nothing); the represented
      list is unchanged (C11_self_assignment_keeps_the_list).
-   PARTIAL: the permuting algorithms (compositions of these steps through libstdc++) are modelled as written and decided by the correspondence
+   * sequences of exchanges within one vector (World.swaps: what std::reverse / rotate /
+     swap_ranges perform through iter_swap) represent the list with the same exchanges applied
+     (C11_exchange_sequences_refine), and for std::reverse the result is, element by element,
+     the mirrored segment (C11_reverse_reverses).
+   PARTIAL: that libstdc++'s algorithms perform exactly these iter_swap sequences (rotate is
+   modelled by the three reversals that give the same result) are modelled as written and decided by the correspondence
    check and its content oracle (DESIGN.md, C11); in the model all access paths are the same
    function. *)
 From Coq Require Import ZArith List Bool Lia.
-From Cntgs Require Import Base Layout Mem Vector Proxy World Spec Rep CompareThm RunsThm ElemThm CmpContent AssignThm SwapThm MoveThm SameVec CompareThm RefUpdate Refine NtRefine.
+From Cntgs Require Import Base Layout Mem Vector Proxy World Spec Rep CompareThm RunsThm ElemThm CmpContent AssignThm SwapThm MoveThm SameVec CompareThm RefUpdate Refine NtRefine World.
 Import ListNotations.
 Local Open Scope Z_scope.
 
@@ -285,3 +290,25 @@ Proof.
   - exact (ref_swap_refines_exchange_fixed L Hwf Hv _ _ offs i j R Hi Hj Hij).
 Qed.
 Print Assumptions C11_reference_assignment_and_swap_after_every_history.
+
+(* ---------- permuting algorithms: sequences of exchanges within one vector ---------- *)
+Theorem C11_exchange_sequences_refine : forall L, wf_plist L = true -> has_varying L = false ->
+  forall (ps : list (nat * nat)) n v l offs, RepO L v l offs -> length l = n ->
+  Forall (fun ij => (fst ij < n)%nat /\ (snd ij < n)%nat /\ fst ij <> snd ij) ps ->
+  let zs := map (fun ij => (Z.of_nat (fst ij), Z.of_nat (snd ij))) ps in
+  RepO L (fst (swaps L true v v zs)) (fold_left lswap ps l) offs.
+Proof. exact swaps_refine_exchanges. Qed.
+Print Assumptions C11_exchange_sequences_refine.
+
+(* std::reverse(begin() + a, begin() + c): the vector afterwards represents a list that holds, at
+   every position k of [a, c), what position a + c - 1 - k held, and is unchanged elsewhere *)
+Theorem C11_reverse_reverses : forall L, wf_plist L = true -> has_varying L = false ->
+  forall v l offs a c, RepO L v l offs -> (a <= c)%nat -> (c <= length l)%nat ->
+  exists l', RepO L (fst (swaps L true v v (rev_pairs (Z.of_nat a) (Z.of_nat c)))) l' offs /\
+    forall k, nth k l' [] = if ((a <=? k) && (k <? c))%nat then nth (a + c - 1 - k) l [] else nth k l [].
+Proof.
+  intros L Hwf Hv v l offs a c R Hac Hcl. exists (fold_left lswap (rev_pairs_nat a c) l). split.
+  - exact (reverse_refines L Hwf Hv v l offs a c R Hac Hcl).
+  - exact (reverse_elementwise l a c Hac Hcl).
+Qed.
+Print Assumptions C11_reverse_reverses.
